@@ -27,13 +27,40 @@ func OracleDurable(tr *Trace, prop string) []Finding {
 		if failed {
 			continue
 		}
+		// settled is per stream session: a re-open (rebalance) re-delivers from the store, so only what was
+		// settled since the last open counts; while the stream is closed there is no position to persist
+		var epoch int64
+		closedNow := false
+		for _, r := range tr.Log {
+			if r.T >= ck.TCommitCall {
+				break
+			}
+			switch r.K {
+			case "eh.BSStart":
+				epoch = r.T
+			case "eh.ASStart":
+				closedNow = false
+			case "eh.BSS":
+				closedNow = true
+			}
+		}
+		if closedNow {
+			continue
+		}
 		for vb := 0; vb < tr.Spec.NumVB; vb++ {
 			var flagged, settled, resume uint64
 			flaggedBy := ""
+			assignedNow := false
 			for _, sg := range tr.Segs[vb] {
 				if sg.ReqT < ck.TCommitCall && !sg.Rollback {
 					resume = sg.Start
 				}
+				if sg.ReqT >= epoch && sg.ReqT < ck.TCommitCall {
+					assignedNow = true
+				}
+			}
+			if !assignedNow {
+				continue
 			}
 			// A position is "advanced by an acknowledgement" when the library accepted the ack (it notifies
 			// the offset tracker with the ack's seqno inside the ack call) and "by a non-document event" when
@@ -60,6 +87,9 @@ func OracleDurable(tr *Trace, prop string) []Finding {
 					if r.K == "cons.track" && r.Seq > settled {
 						settled = r.Seq
 					}
+					continue
+				}
+				if r.T < epoch {
 					continue
 				}
 				switch r.K {
